@@ -8,6 +8,8 @@ R16.2 (terms + CFG) add_no_format_frame_data builds exactly one record from its 
       grouped container would change the order); that field is only ever initialised empty and appended to there;
       the record generator yields the field as it is.
 Sizes (empty, 1 byte, larger than a record) rest on C15 R15.2 (flagged padding) and C02 (lossless segmentation).
+R16.4 (shared, = C02 R02.1/2/4/5 + C10 R10.1-3) the transport below the records: segments partition each body in order with
+      correct bracketing and padding, the output buffer and the byte writer hand on exactly those bytes.
 """
 
 from __future__ import annotations
@@ -115,6 +117,8 @@ def run(chk):
 
     run_record_list_part(chk, nf)
     run_padding_part(chk)
+    from ._layout import transport_integrity
+    chk.guard(transport_integrity, chk, "R16.4")
 
 
 def run_record_list_part(chk, nf):
@@ -270,7 +274,8 @@ def run_padding_part(chk):
     pad count (the obligations of C01 R01.5 b/c/d on the segment builder, for all body lengths)."""
     from ..segmodel import SegmentModel
     from . import c01
-    m = SegmentModel(chk.ix, chk.cg)
+    from ..segmodel import shared_model
+    m = shared_model(chk.ix, chk.cg)
     if m.error is not None and not chk.violations():
         raise m.error
     n0 = len(chk.obs)
